@@ -1,16 +1,19 @@
 """C08 - nonlinear FIBER: returns a finite field, energy law, SPM closed form, convergence to the
 scalar NLSE (first order in phi_max), 1-pol == x-row of 2-pol with empty y.
 
-Bounded-exhaustive exploration of a deviation lattice (every point that differs from the baseline
-in at most k of 10 coordinates) over input fields x fibre parameters x polarisation layouts; every
-case runs the REAL `opticomlib.devices.FIBER` and is compared with conservation laws, closed forms
-and an independent Strang/Richardson NLSE solver (c08_ref.py).  See DESIGN.md 5/C08, notes/C08.md.
+Bounded-exhaustive exploration of a deviation lattice over 10 "physics" coordinates (field, length,
+power, fibre parameters, polarisation layout) and 4 "form" coordinates (sample dtype, spelling of the
+scalar parameters, noise component, history of the global grid); every case runs the REAL
+`opticomlib.devices.FIBER` and is compared with conservation laws, closed forms and an independent
+Strang/Richardson NLSE solver (c08_ref.py).  See DESIGN.md 5/C08, notes/C08.md.
 """
 from __future__ import annotations
 import hashlib
+import io
 import itertools
 import math
 import signal
+import warnings
 import numpy as np
 
 from mcx.core.kernel import res
@@ -23,23 +26,71 @@ NONTRIVIAL = ('the FIBER run of the case took more than one adaptive split step 
               'distinct non-trivial cases are counted by the digest of the returned field')
 
 # ----------------------------------------------------------------------------- alphabet
-AXES = [  # (name, values) - baseline first
-    ('kind',   ['gauss', 'nrz', 'rand', 'cw', 'lead0']),
-    ('N',      [64, 128, 256, 65]),      # 65: odd length (fftshift and ifftshift differ)
-    ('P',      [0.1, 1e-3, 0.5, 1e-9]),      # peak power per polarisation row [W]; 1e-9 W (-60 dBm): the first step of a
+# (name, values enumerated in both tiers - baseline first, values added by the thorough tier)
+PHYS = [
+    ('kind',   ['gauss', 'nrz', 'rand', 'cw', 'lead0',
+                'white'],                    # white: every DFT bin populated (Nyquist bin of an even N included)
+               ['dcr']),                     # dcr: large DC level with a 1e-3 ripple
+    ('N',      [64, 128, 256, 65,            # 65: odd length (fftshift and ifftshift differ)
+                1, 3],                       # a single sample ((2,1) with two polarisations), the shortest odd length > 1
+               [2, 17, 97, 127]),            # 2: a 1-D field that looks like a (2,) column; 17 = one slot + 1; 97, 127: primes (non-smooth FFT)
+    ('P',      [0.1, 1e-3, 0.5, 1e-9,        # peak power per polarisation row [W]; 1e-9 W (-60 dBm): the first step of a
                                              # naive phi_max/(gamma*P) rule is 1e7 km, exp(-alpha*h/2) underflows
-    ('L',      [20.0, 1.0, 100.0]),          # km
-    ('alpha',  [0.0, 0.2, 0.5]),             # dB/km
-    ('b2',     [-20.0, 0.0, 25.0, -5.0]),    # ps^2/km
-    ('b3',     [0.0, 0.2, -0.2]),            # ps^3/km
-    ('gamma',  [1.3, 0.0, 5.0]),             # 1/W/km
-    ('phi',    [0.05, 0.1, 0.01, 5e-4]),     # rad
-    ('layout', ['1pol', '2pol-eq', '2pol-y0']),
+                0.0,                         # the zero field
+                'edge-', 'edge+'],           # gamma*P_total*L = phi_max*(1 -/+ 1e-9): the single-step / two-step boundary
+               ['edge=', 1e-300]),           # exactly on the boundary; |x| = 1e-150: |x|^2 is close to the underflow threshold
+    ('L',      [20.0, 1.0, 100.0, 0.0], []),      # km; 0: the zero-length fibre (identity)
+    ('alpha',  [0.0, 0.2, 0.5], []),              # dB/km
+    ('b2',     [-20.0, 0.0, 25.0, -5.0], [-25.0]),    # ps^2/km (both limits of the quantifier in the thorough tier)
+    ('b3',     [0.0, 0.2, -0.2], []),             # ps^3/km
+    ('gamma',  [1.3, 0.0, 5.0], []),              # 1/W/km
+    ('phi',    [0.05, 0.1, 0.01, 5e-4], []),      # rad (0.1 and 5e-4 are the limits of the quantifier)
+    ('layout', ['1pol', '2pol-eq', '2pol-y0', '2pol-ne', '2pol-x0'], []),   # ne: unequal rows; x0: empty x, populated y
 ]
-NAMES = [a for a, _ in AXES]
+FORM = [
+    # dtype of the sample array handed to optical_signal.  Real dtypes carry the real part of the shape; integer/bool
+    # dtypes carry its 0/1 pattern (|x| >= max/2), i.e. 1 W peak - the only members above the 0.5 W of the quantifier
+    ('dtype',  ['c128', 'c64', 'f64', 'f32', 'i64', 'i8', 'bool'], ['f16', 'i32', 'i16', 'u8']),
+    # spelling of length, alpha, beta_2, beta_3, gamma, phi_max: python floats by keyword; python ints where the value is
+    # integral; numpy scalars; 0-d arrays; positional; show_progress=True; chain: two calls of length L/2, the object
+    # returned by the first is the input of the second (the NLSE with constant coefficients is a semigroup in z)
+    ('call',   ['float', 'int', 'np.f32', '0d', 'progress', 'chain'], ['np.f64', 'np.i64', 'pos']),
+    ('noise',  ['none', 'same', 'zero'], ['f32', 'i8', 'x-only']),
+    ('grid',   ['sps+R:160G', 'R+fs:28G/10G', 'sps+fs:100G', 'fs:24.5G'],
+               ['sps+R:80G', 'sps+R:640G', 'wl1310', 'N=len/sps', 'sps+R,R+fs:28G', 'default']),
+]
+TIERS = {  # number of form deviations -> largest number of physics deviations enumerated with it
+    'quick':    {0: 3, 1: 2, 2: 0},
+    'thorough': {0: 4, 1: 2, 2: 1, 3: 0},
+}
+NAMES = [a for a, _, _ in PHYS + FORM]
+NPHYS = len(PHYS)
+PHI0 = PHYS[8][1][0]
+P0 = PHYS[2][1][0]
+EDGE = {'edge-': -1e-9, 'edge=': 0.0, 'edge+': 1e-9}
+GRIDS = {  # name -> sequence of gv(...) calls after gv.clean()
+    'sps+R:160G':      lambda N: [dict(sps=16, R=10e9)],
+    'R+fs:28G/10G':    lambda N: [dict(R=10e9, fs=28e9)],                  # fs/R = 2.8 -> sps 3, fs != sps*R
+    'sps+fs:100G':     lambda N: [dict(sps=8, fs=100e9)],
+    'fs:24.5G':        lambda N: [dict(fs=24.5e9)],                        # fs alone against the default R: ratio 24.5
+    'sps+R:80G':       lambda N: [dict(sps=8, R=10e9)],
+    'sps+R:640G':      lambda N: [dict(sps=64, R=10e9)],
+    'wl1310':          lambda N: [dict(sps=16, R=10e9, wavelength=1310e-9)],
+    'N=len/sps':       lambda N: [dict(sps=16, R=10e9, N=max(1, N // 16))],  # gv.w / gv.t exist and (16 | N) have the field's length
+    'sps+R,R+fs:28G':  lambda N: [dict(sps=16, R=10e9), dict(R=10e9, fs=28e9)],   # reconfigured before the call
+    'default':         lambda N: [],                                       # gv never configured: fs = 16 GS/s
+}
+DTYPES = {'c128': np.complex128, 'c64': np.complex64, 'f64': np.float64, 'f32': np.float32, 'f16': np.float16,
+          'i64': np.int64, 'i32': np.int32, 'i16': np.int16, 'i8': np.int8, 'u8': np.uint8, 'bool': np.bool_}
+INTS = ('i64', 'i32', 'i16', 'i8', 'u8', 'bool')
+REALS = ('f64', 'f32', 'f16')
+EPS_IN = {np.dtype(np.complex64): 2.0 ** -23, np.dtype(np.float32): 2.0 ** -23, np.dtype(np.float16): 2.0 ** -10}   # unit roundoff of the sample dtype where below double
 LADDER = (0.1, 0.05, 0.01, 0.002)
 PHI_NL_MAX = 10.0                            # rad, constraint gamma*P*L <= 10
 K_BOUND = 25.0                               # DESIGN 5/C08 (calibrated: worst observed constant 22 at 10 rad)
+K_LIN = 2.0                                  # first-order constant per radian of rms dispersive phase (see bound())
+CAP = 2.5                                    # |out - ref| <= CAP * gamma * int max_t P dz * |ref| for ANY unit-modulus splitting
+RESOLVED = 0.5                               # rad of rms dispersive phase per split step below which the ladder must be monotone
 FLOOR = 1e-6                                 # reference accuracy (1e-7 self-convergence) x10
 MONO_MAX = 0.25                              # the ladder must be non-increasing once the error is below 25 %: above that
                                              # the numerical solution has decorrelated from the true one (saturated error,
@@ -47,20 +98,31 @@ MONO_MAX = 0.25                              # the ladder must be non-increasing
 E_TOL = 3e-4                                 # energy law: alpha/4.343 vs ln(10)/10 is 1.5e-4 at 50 dB
 A_CONST = 3e-4                               # same constant ambiguity seen through amplitude+phase of the field
 FFT_BUDGET = 100_000                         # calls of devices.fft+ifft per FIBER call (DESIGN 5/C08 B)
+FFT_BUDGET_SHORT = 2_000                     # ... when a correct run needs fewer than 10 steps
 CPU_HORIZON = 30.0                           # seconds of CPU time per FIBER call (DESIGN 5/C08 B: horizon 30 s)
 WALL_HORIZON = 300.0                         # kernel back-stop per case (wall clock; the machine is shared)
 DB1, DB2 = 1 / 4.343, math.log(10) / 10      # the two admissible dB -> 1/km constants
 
 
-def lattice(k):
-    """all points differing from the baseline in <= k coordinates, simplest first"""
-    base = tuple(v[0] for _, v in AXES)
+def axes(tier):
+    return [(n, q + (t if tier == 'thorough' else [])) for n, q, t in PHYS + FORM]
+
+
+def lattice(tier):
+    """every point with p physics deviations and f form deviations such that p <= TIERS[tier][f];
+    fewest deviations first"""
+    ax = axes(tier)
+    base = tuple(v[0] for _, v in ax)
+    allow = TIERS[tier]
     out = []
-    for d in range(k + 1):
-        for axes in itertools.combinations(range(len(AXES)), d):
-            for vals in itertools.product(*[AXES[i][1][1:] for i in axes]):
+    for d in range(max(f + p for f, p in allow.items()) + 1):
+        for sel in itertools.combinations(range(len(ax)), d):
+            f = sum(i >= NPHYS for i in sel)
+            if f not in allow or d - f > allow[f]:
+                continue
+            for vals in itertools.product(*[ax[i][1][1:] for i in sel]):
                 p = list(base)
-                for i, v in zip(axes, vals):
+                for i, v in zip(sel, vals):
                     p[i] = v
                 out.append(tuple(p))
     return out
@@ -68,7 +130,16 @@ def lattice(k):
 
 def admissible(p):
     c = dict(zip(NAMES, p))
-    return c['gamma'] * c['P'] * c['L'] <= PHI_NL_MAX * (1 + 1e-12)
+    if c['dtype'] in INTS:
+        # the power coordinate is not free for a 0/1 field: 1 W (listed under the baseline of P) or the zero field
+        if c['P'] not in (P0, 0.0):
+            return False
+        pw = 1.0 if c['P'] else 0.0
+    elif isinstance(c['P'], str):
+        return c['gamma'] > 0 and c['L'] > 0
+    else:
+        pw = c['P']
+    return c['gamma'] * pw * c['L'] <= PHI_NL_MAX * (1 + 1e-12)
 
 
 # ----------------------------------------------------------------------------- seam: FFT budget + CPU horizon
@@ -84,13 +155,13 @@ def _vt_alarm(signum, frame):
     raise CpuHorizon()
 
 
-def run_fiber(sig, budget, **kw):
+def run_fiber(sig, budget, args, kw):
     """FIBER under (a) a budget of fft/ifft calls (deterministic) and (b) a horizon of CPU_HORIZON seconds of
     *CPU time of this process* (ITIMER_VIRTUAL: independent of the load other processes put on the machine).
     returns (output | None, n_fft, n_ifft, reason)"""
     import opticomlib.devices as dv
     cnt = [0, 0]
-    of, oi = dv.fft, dv.ifft
+    of, oi, ot = dv.fft, dv.ifft, dv.tqdm
 
     def cf(*a, **k):
         cnt[0] += 1
@@ -103,31 +174,113 @@ def run_fiber(sig, budget, **kw):
         if cnt[0] + cnt[1] > budget:
             raise FFTBudget()
         return oi(*a, **k)
+
+    def quiet_tqdm(*a, **k):     # show_progress=True: the real progress bar, drawn into a buffer instead of stderr
+        k['file'] = io.StringIO()
+        return ot(*a, **k)
     reason = None
     old = signal.signal(signal.SIGVTALRM, _vt_alarm)
-    dv.fft, dv.ifft = cf, ci
+    dv.fft, dv.ifft, dv.tqdm = cf, ci, quiet_tqdm
     try:
-        signal.setitimer(signal.ITIMER_VIRTUAL, CPU_HORIZON)
-        out = dv.FIBER(sig, **kw)
-        signal.setitimer(signal.ITIMER_VIRTUAL, 0)
+        with warnings.catch_warnings():
+            warnings.simplefilter('ignore')
+            signal.setitimer(signal.ITIMER_VIRTUAL, CPU_HORIZON)
+            out = dv.FIBER(sig, *args, **kw)
+            signal.setitimer(signal.ITIMER_VIRTUAL, 0)
     except FFTBudget:
         out, reason = None, f'{budget} fft/ifft calls'
     except CpuHorizon:
         out, reason = None, f'{CPU_HORIZON:g} s of CPU time'
     finally:
         signal.setitimer(signal.ITIMER_VIRTUAL, 0)
-        dv.fft, dv.ifft = of, oi
+        dv.fft, dv.ifft, dv.tqdm = of, oi, ot
         signal.signal(signal.SIGVTALRM, old)
     return out, cnt[0], cnt[1], reason
 
 
-def build(x, layout):
+# ----------------------------------------------------------------------------- forms
+def spell(v, call):
+    """one scalar parameter as the call form passes it"""
+    if call in ('float', 'pos', 'progress', 'chain'):
+        return float(v)
+    if call == 'int':
+        return int(v) if float(v).is_integer() else float(v)
+    if call == 'np.f32':
+        return np.float32(v)
+    if call == 'np.f64':
+        return np.float64(v)
+    if call == 'np.i64':
+        return np.int64(v) if float(v).is_integer() else np.float64(v)
+    if call == '0d':
+        return np.array(float(v))
+    raise ValueError(call)
+
+
+PARAMS = ('length', 'alpha', 'beta_2', 'beta_3', 'gamma', 'phi_max')
+
+
+def call_args(passed, call):
+    if call == 'pos':
+        return tuple(passed[k] for k in PARAMS), {}
+    kw = dict(passed)
+    if call == 'progress':
+        kw['show_progress'] = True
+    return (), kw
+
+
+def field_rows(kind, N, P, seed, layout, dtype, scale_to=None):
+    """the rows of the signal array in double precision, before the cast to the sample dtype.
+    scale_to: target for the peak of the TOTAL power (edge members of the P axis) instead of P per row"""
+    real = dtype in REALS or dtype in INTS
+    x = R.make_field(kind, N, 1.0 if scale_to is not None else P, seed, real=real)
+    if dtype in INTS:
+        m = np.max(np.abs(x))
+        x = (np.abs(x) >= 0.5 * m).astype(complex) if m > 0 else x
+    y = (1.0 if dtype in INTS else 0.6 if real else 0.6j) * np.roll(x[::-1], 3)     # a row different from x
+    z = np.zeros_like(x)
+    rows = {'1pol': [x], '2pol-eq': [x, x], '2pol-y0': [x, z], '2pol-ne': [x, y], '2pol-x0': [z, x]}[layout]
+    if scale_to is not None:
+        m = np.max(sum(np.abs(r) ** 2 for r in rows))
+        rows = [r * np.sqrt(scale_to / m) if m > 0 else r for r in rows]
+    return rows
+
+
+def noise_rows(nkind, rows, N):
+    """noise component for the given signal rows (None = absent).  An empty signal row carries no noise."""
+    if nkind == 'none':
+        return None
+    amp = 0.05 * max(float(np.max(np.abs(r))) for r in rows) or 1e-3
+    rs = np.random.RandomState(1234 + N)
+    out = []
+    for i, r in enumerate(rows):
+        nz = rs.standard_normal(N) + 1j * rs.standard_normal(N)
+        if nkind == 'zero' or not np.any(r) or (nkind == 'x-only' and i == 1):
+            out.append(np.zeros(N, complex))
+        elif nkind == 'f32':
+            out.append((amp * nz.real).astype(np.float32))
+        elif nkind == 'i8':
+            out.append((nz.real > 0.5).astype(np.int8))
+        else:
+            out.append(amp * nz)
+    if nkind == 'f32':
+        return np.array(out, dtype=np.float32)
+    if nkind == 'i8':
+        return np.array(out, dtype=np.int8)
+    return np.array(out)
+
+
+def build(rows, dtype, nrows):
+    """(optical_signal, copy of its signal array, copy of its noise array | None) - the copies are taken BEFORE the call"""
     from opticomlib.typing import optical_signal
-    if layout == '1pol':
-        return optical_signal(x.copy())
-    if layout == '2pol-eq':
-        return optical_signal(np.array([x, x]))
-    return optical_signal(np.array([x, np.zeros_like(x)]))
+    dt = DTYPES[dtype]
+    arr = np.array([r.real if np.dtype(dt).kind != 'c' else r for r in rows]).astype(dt)
+    nz = nrows
+    if nz is not None and not np.any(nz):
+        nz = np.zeros(nz.shape, dt)            # the all-zero noise has the dtype of the signal (an integer signal stays integer)
+    if len(rows) == 1:
+        arr, nz = arr[0], (None if nz is None else nz[0])
+    sig = optical_signal(arr.copy(), None if nz is None else nz.copy())
+    return sig, np.array(sig.signal), (None if sig.noise is None else np.array(sig.noise))
 
 
 def rows_of(a):
@@ -147,159 +300,262 @@ def sha(a):
 # ----------------------------------------------------------------------------- the case
 def case_fn(case):
     c = dict(zip(NAMES + ['seed'], case))
-    kind, N, P, L, alpha, b2, b3, g, phi, layout = [c[n] for n in NAMES]
-    gv = gv_reset(sps=R.SPS, R=R.FS / R.SPS)
-    assert gv.fs == R.FS
-    x = R.make_field(kind, N, P, c['seed'])
-    assert x.shape == (N,) and abs(np.max(np.abs(x) ** 2) / P - 1) < 1e-12
-    lead0 = bool(x[0] == 0 and x[1] == 0)
-    cls = 'first-two-samples-zero' if lead0 else kind
+    kind, N, Psym, layout, dtype, callf, nkind, grid = [c[n] for n in ('kind', 'N', 'P', 'layout', 'dtype', 'call', 'noise', 'grid')]
+    gv = gv_reset()
+    with warnings.catch_warnings():
+        warnings.simplefilter('ignore')
+        for kw in GRIDS[grid](N):
+            gv(**kw)
+    fs = float(gv.fs)                       # the reference works on the grid the library reports (what gv computes from
+                                            # its arguments is property C14, not C08)
+
+    # ---- the scalar parameters as passed, and the values they carry
+    passed = {k: spell(c[n], callf) for k, n in zip(PARAMS, ('L', 'alpha', 'b2', 'b3', 'gamma', 'phi'))}
+    L, alpha, b2, b3, g, phi = [float(passed[k]) for k in PARAMS]
+    eps_par = 2.0 ** -23 if callf == 'np.f32' else 0.0
+
+    # ---- the input rows
+    if isinstance(Psym, str):
+        rows0 = field_rows(kind, N, None, c['seed'], layout, dtype, scale_to=phi * (1 + EDGE[Psym]) / (g * L))
+    else:
+        rows0 = field_rows(kind, N, Psym, c['seed'], layout, dtype)
+        if dtype == 'c128':
+            m = float(np.max(np.abs(rows0[-1 if layout == '2pol-x0' else 0]) ** 2))
+            assert m == 0 or abs(m / Psym - 1) < 1e-12, (kind, N, Psym, m)
+    _, s_main, n_main = build(rows0, dtype, noise_rows(nkind, rows0, N))
+    rowsA = [np.asarray(r).astype(complex) for r in rows_of(s_main)]       # what the library actually receives
+    P = max(float(np.max(np.abs(r) ** 2)) for r in rowsA)                  # peak power of the strongest row
+    xa = rowsA[1] if layout == '2pol-x0' else rowsA[0]
+    lead0 = bool(N >= 2 and xa[0] == 0 and xa[1] == 0)
+    cls = 'zero-field' if P == 0 else 'first-two-samples-zero' if lead0 else kind
     disp = not (b2 == 0 and b3 == 0)
     viol, stats, obs = [], {'fiber_calls': 0, 'split_steps': 0, 'ref_steps': 0}, []
 
-    # ---- reference for the x row (shared by every rung and by both layouts of the pair check)
     a1 = alpha * DB1
-    ref, info = R.nlse_ref(x, L, a1, b2, b3, g)
-    if not info['conv']:
-        raise AssertionError(f'reference solver did not self-converge: {info}')
-    stats['ref_steps'] = info['n']
     Leff = L if alpha == 0 else -math.expm1(-a1 * L) / a1
     phi_nl = g * P * Leff
     extra = A_CONST if alpha > 0 else 0.0
+    # rounding the library is entitled to: the first nonlinear factor computed in the precision of the samples as passed
+    # (numpy does so by itself for float16/float32/complex64 arrays), scalar arithmetic in the precision of float32 parameters
+    w = R.omega(N, fs)
+    lin_phase = float(np.max(np.abs(b2 * w ** 2 / 2) + np.abs(b3 * w ** 3 / 6))) * L + a1 * L / 2
 
-    def budget_for(ph, lay):
+    def lin_rms_of(row):
+        """rms over the spectrum of the row of the dispersive phase (b2 w^2/2 + b3 w^3/6) L [rad]: how much the
+        dispersion reshapes the intensity of THIS field along the fibre"""
+        X = np.abs(np.fft.fft(row)) ** 2
+        return float(np.sqrt(np.sum(X * ((b2 * w ** 2 / 2 + b3 * w ** 3 / 6) * L) ** 2) / np.sum(X))) if np.any(X) else 0.0
+    lin_rms = max(lin_rms_of(r) for r in rowsA)
+    rnd = 8 * EPS_IN.get(s_main.dtype, 0.0) * (1 + phi_nl) + 8 * eps_par * (1 + phi_nl + lin_phase)
+
+    # ---- reference per distinct non-empty row (each row of FIBER is an independent scalar NLSE)
+    refs = {}
+
+    def ref_of(row):
+        k = row.tobytes()
+        if k not in refs:
+            r, info = R.nlse_ref(row, L, a1, b2, b3, g, fs=fs)
+            if not info['conv']:
+                raise AssertionError(f'reference solver did not self-converge: {info}')
+            stats['ref_steps'] += info['n']
+            refs[k] = (r, info)
+        return refs[k]
+
+    def pint_of(rows):
+        return sum(ref_of(r)[1]['pint'] for r in rows if np.any(r))
+
+    phi_int = g * max(pint_of([r]) for r in rowsA)      # gamma * int_0^L max_t |A_row|^2 dz of the strongest row [rad]
+
+    def budget_for(ph, rows):
         # steps a correct implementation needs: gamma * int(max_t total power) dz / phi_max (+ tail);
-        # x4 head-room; never below the DESIGN budget
-        tot = 2.0 if lay == '2pol-eq' else 1.0
-        est = g * tot * info['pint'] / ph + 2
-        return int(max(FFT_BUDGET, 8 * est + 100))
+        # x8 head-room; never below the DESIGN budget (a smaller floor for runs of fewer than 10 steps)
+        est = g * pint_of(rows) / ph + 2
+        return int(max(FFT_BUDGET if est >= 10 else FFT_BUDGET_SHORT, 8 * est + 100)), est
 
-    hung = set()
+    # ---- phase 1: all FIBER calls of the case
+    partner = {'1pol': '2pol-y0', '2pol-y0': '1pol'}.get(layout)
+    inputs = {layout: (rows0, s_main, n_main)}
+    if partner:
+        rp = [rows0[0]] if partner == '1pol' else [rows0[0], np.zeros_like(rows0[0])]
+        _, sp, npn = build(rp, dtype, noise_rows(nkind, rp, N))
+        inputs[partner] = (rp, sp, npn)
+    hung, runs = set(), {}
 
-    def call(ph, lay):
-        sig = build(x, lay)
+    def call(phv, lay):
+        """phv: the phi_max value of the axis/ladder; it is passed in the case's spelling"""
+        rws, s_in, _ = inputs[lay]
+        rin = [np.asarray(r).astype(complex) for r in rows_of(s_in)]
+        pp = dict(passed, phi_max=spell(phv, callf))
+        ph = float(pp['phi_max'])
         if lay in hung:          # one non-terminating run per layout is reported; further rungs are skipped
-            return None, sig, 0
-        out, nf, ni, why = run_fiber(sig, budget_for(ph, lay), length=L, alpha=alpha, beta_2=b2, beta_3=b3,
-                                     gamma=g, phi_max=ph)
+            runs[(lay, phv)] = None
+            return
+        sig, _, _ = build(rws, dtype, noise_rows(nkind, rws, N))        # a fresh object for every call
+        bud, est = budget_for(ph, rin)
+        a, k = call_args(pp, callf)
+        if callf == 'chain':
+            k['length'] = L / 2
+            out, nf, ni, why = run_fiber(sig, bud, a, k)
+            if out is not None:
+                out, nf, ni2, why = run_fiber(out, bud, a, k)
+                ni += ni2
+        else:
+            out, nf, ni, why = run_fiber(sig, bud, a, k)
         stats['fiber_calls'] += 1
         stats['split_steps'] += ni
         if out is None:
-            viol.append((f'returns:nontermination:{lay}:{cls}',
-                         f'FIBER did not return within {why} '
-                         f'(phi_max={ph}, a correct run needs about {2 * (g * info["pint"] / ph + 2):.0f})'))
-            obs.append(('NONTERM', lay, ph))
+            key = 'returns:nontermination:zero-length' if L == 0 else f'returns:nontermination:{lay}:{cls}'
+            viol.append((key, f'FIBER did not return within {why} (phi_max={ph}, length={L}, a correct run needs about {2 * est:.0f})'))
+            obs.append(('NONTERM', lay, phv))
             hung.add(lay)
-            return None, sig, ni
-        o = out.signal
-        obs.append((lay, ph, sha(o), ni))
-        return o, sig, ni
-
-    def basic(o, sig, lay, ph):
-        """oracles (1) and (2); returns False when the field is unusable"""
-        s = sig.signal
-        if not isinstance(o, np.ndarray) or o.shape != s.shape:
-            viol.append((f'shape:{lay}', f'output shape {getattr(o, "shape", None)} != input shape {s.shape}'))
-            return False
-        if not np.all(np.isfinite(o)):
+            runs[(lay, phv)] = None
+            return
+        o, on = out.signal, out.noise
+        obs.append((lay, phv, sha(o), ni))
+        ok = True
+        if not isinstance(o, np.ndarray) or o.shape != s_in.shape:
+            viol.append((f'shape:{lay}', f'output shape {getattr(o, "shape", None)} != input shape {s_in.shape}'))
+            ok = False
+        elif not np.all(np.isfinite(o)):
             viol.append((f'finite:{lay}:{cls}', f'{int(np.sum(~np.isfinite(o)))} non-finite output samples (phi_max={ph})'))
-            return False
-        want = 10 ** (-alpha * L / 10)
-        for r, (orow, irow) in enumerate(zip(rows_of(o), rows_of(s))):
-            ein, eout = float(np.sum(np.abs(irow) ** 2)), float(np.sum(np.abs(orow) ** 2))
-            if ein == 0:
-                if eout != 0:
-                    viol.append((f'energy:{lay}:empty-row-not-empty', f'row {r}: input empty, output energy {eout:.3e}'))
-            elif abs(eout / (ein * want) - 1) > E_TOL:
-                viol.append((f'energy:{lay}:{"loss" if alpha > 0 else "lossless"}',
-                             f'row {r}: E_out/E_in = {eout / ein:.6e}, law 10^(-alpha L/10) = {want:.6e}, '
-                             f'ratio-1 = {eout / (ein * want) - 1:+.2e} (phi_max={ph})'))
-        return True
+            ok = False
+        if on is not None and (not isinstance(on, np.ndarray) or on.shape != s_in.shape):
+            viol.append((f'shape:noise:{lay}', f'the noise component of the output has shape {getattr(on, "shape", None)}, input shape {s_in.shape}'))
+            on = None
+        runs[(lay, phv)] = (o, on, ni, ph) if ok else None
 
-    def err_vs_ref(o, sig):
-        e = 0.0
-        for orow, irow in zip(rows_of(o), rows_of(sig.signal)):
-            if np.any(irow):
-                e = max(e, relerr(orow, ref))
-        return e
-
-    def bound(ph):
-        # gamma == 0: the splitting error is a commutator with the nonlinear operator and vanishes identically, every
-        # split-step scheme is then exact up to FFT rounding (<= 1e5 steps * eps * log N << FLOOR)
-        if g == 0:
-            return FLOOR + extra
-        return K_BOUND * ph * max(phi_nl, 0.1) + FLOOR + extra
-
-    ratios = [0.0]
-
-    # ---- main run at the case's phi_max
-    o, sig, steps = call(phi, layout)
-    usable = o is not None and basic(o, sig, layout, phi)
-    e_main = None
-    if usable:
-        if not disp:
-            # oracle (3): closed form, either dB constant
-            es = []
-            for a in (a1, alpha * DB2):
-                Le = L if alpha == 0 else -math.expm1(-a * L) / a
-                cf = x * np.exp(-a * L / 2 + 1j * g * np.abs(x) ** 2 * Le)
-                es.append(max(relerr(orow, cf) for orow, irow in zip(rows_of(o), rows_of(sig.signal)) if np.any(irow)))
-            e3 = min(es)
-            obs.append(('spm', round(e3, 12)))
-            # alpha == 0: |A| is constant along z, so ANY split-step scheme accumulates exactly gamma*|in|^2*L
-            # (rounding only); with loss a stepping scheme may be first order in phi_max
-            tol3 = 1e-9 if alpha == 0 else phi + 1e-9
-            if e3 > tol3:
-                viol.append((f'spm-closed-form:{"loss" if alpha > 0 else "lossless"}:{"kerr" if g > 0 else "gamma0"}',
-                             f'beta2=beta3=0: relative distance to in*exp(-a L/2)*exp(j g |in|^2 L_eff) is {e3:.3e} '
-                             f'> {"1e-9" if alpha == 0 else "phi_max+1e-9"} = {tol3:.3e} (gamma*P*L_eff = {phi_nl:.3f} rad, alpha*L = {alpha * L:.1f} dB)'))
-        else:
-            e_main = err_vs_ref(o, sig)
-            ratios.append(e_main / bound(phi))
-            if e_main > bound(phi):
-                viol.append((f'nlse-bound:{layout}' + (':gamma0' if g == 0 else ''),
-                             f'relative L2 error vs reference NLSE solution {e_main:.3e} > ' + ('floor = ' if g == 0 else 'K*phi_max*max(Phi_NL,0.1)+floor = ') +
-                             f'{bound(phi):.3e} (phi_max={phi}, Phi_NL={phi_nl:.3f} rad, split steps={steps})'))
-
-    # ---- oracle (5): 1-pol run == x row of the 2-pol run with empty y
-    if layout in ('1pol', '2pol-y0'):
-        other = '2pol-y0' if layout == '1pol' else '1pol'
-        o2, sig2, _ = call(phi, other)
-        ok2 = o2 is not None and basic(o2, sig2, other, phi)
-        if usable and ok2:
-            a, b = (o, o2[0]) if layout == '1pol' else (o2, o[0])
-            d = relerr(a, b)
-            if d > 1e-12:
-                viol.append(('pol-equivalence:1pol-vs-empty-y',
-                             f'1-pol output differs from the x row of the 2-pol run with empty y by {d:.3e} relative (> 1e-12)'))
-
-    # ---- oracle (4): ladder (run where phi_max is at its baseline; other phi_max values are single rungs above)
-    if disp and g != 0 and phi == AXES[8][1][0]:
-        es = []
-        for ph in LADDER:
-            if ph == phi:
-                oo, ss, st = o, sig, steps
-                okk = usable
-            else:
-                oo, ss, st = call(ph, layout)
-                okk = oo is not None and basic(oo, ss, layout, ph)
-            if not okk:
-                es.append(None)
-                continue
-            e = e_main if ph == phi else err_vs_ref(oo, ss)
-            es.append(e)
-            ratios.append(e / bound(ph))
-            if ph != phi and e > bound(ph):
-                viol.append((f'nlse-bound:{layout}',
-                             f'relative L2 error vs reference NLSE solution {e:.3e} > K*phi_max*max(Phi_NL,0.1)+floor = '
-                             f'{bound(ph):.3e} (phi_max={ph}, Phi_NL={phi_nl:.3f} rad, split steps={st})'))
-        for (p0, e0), (p1, e1) in zip(zip(LADDER, es), list(zip(LADDER, es))[1:]):
-            if e0 is not None and e1 is not None and e0 <= MONO_MAX and e1 > 1.05 * e0 + FLOOR:
-                viol.append((f'nlse-monotone:{layout}',
-                             f'error grows down the ladder: e({p0})={e0:.3e} -> e({p1})={e1:.3e}'))
-        obs.append(('ladder', tuple(None if e is None else float(f'{e:.3e}') for e in es)))
+    call(c['phi'], layout)
+    if partner:
+        call(c['phi'], partner)
+    ladder = disp and g != 0 and c['phi'] == PHI0
+    if ladder:
+        for phv in LADDER:
+            if phv != c['phi']:
+                call(phv, layout)
         stats['ladders'] = 1
+    steps = runs[(layout, c['phi'])][2] if runs.get((layout, c['phi'])) else 0
 
+    # ---- phase 2: the oracles, under a reading of "the input" (A: the signal component alone, the noise component is
+    # something else; B - only tried when a noise component is present and A fails: the total field signal+noise)
+    def evaluate(reading):
+        v, ob, ratios = [], [], [0.0]
+
+        def rows_in(lay):
+            _, s_in, n_in = inputs[lay]
+            t = s_in if reading == 'A' or n_in is None else s_in + n_in
+            return [np.asarray(r).astype(complex) for r in rows_of(t)]
+
+        def rows_out(run):
+            o, on = run[0], run[1]
+            return rows_of(o if reading == 'A' or on is None else o + on)
+
+        def energy(run, lay):
+            want = 10 ** (-alpha * L / 10)
+            tol = E_TOL + 8 * eps_par * (1 + a1 * L)
+            for r, (orow, irow) in enumerate(zip(rows_out(run), rows_in(lay))):
+                ein, eout = float(np.sum(np.abs(irow) ** 2)), float(np.sum(np.abs(orow) ** 2))
+                if ein == 0:
+                    if eout != 0:
+                        v.append((f'energy:{lay}:empty-row-not-empty', f'row {r}: input empty, output energy {eout:.3e}'))
+                elif abs(eout / (ein * want) - 1) > tol:
+                    v.append((f'energy:{lay}:{"loss" if alpha > 0 else "lossless"}',
+                              f'row {r}: E_out/E_in = {eout / ein:.6e}, law 10^(-alpha L/10) = {want:.6e}, '
+                              f'ratio-1 = {eout / (ein * want) - 1:+.2e} (phi_max={run[3]})'))
+
+        def err_vs_ref(run, lay):
+            e = 0.0
+            for orow, irow in zip(rows_out(run), rows_in(lay)):
+                if np.any(irow):
+                    e = max(e, relerr(orow, ref_of(irow)[0]))
+            return e
+
+        def bound(ph):
+            # gamma == 0: the splitting error is a commutator with the nonlinear operator and vanishes identically, every
+            # split-step scheme is then exact up to FFT rounding (<= 1e5 steps * eps * log N << FLOOR)
+            if g == 0:
+                return FLOOR + extra + rnd
+            # first order in phi_max with the calibrated constant K per max(Phi_NL, 0.1) rad - or, for fields that the
+            # dispersion reshapes quickly (short records, white spectra, wide grids: the steps chosen from phi_max alone do
+            # not resolve the dispersion), K_LIN per radian of rms dispersive phase; the latter never beyond the error ANY
+            # splitting with unit-modulus nonlinear factors can make at all (Duhamel: twice the integrated peak phase)
+            return max(K_BOUND * ph * max(phi_nl, 0.1), min(CAP * phi_int, K_LIN * ph * lin_rms)) + FLOOR + extra + rnd
+
+        def resolved(ph):
+            # rms dispersive phase per split step at this rung (a correct run takes about phi_int/ph steps)
+            return lin_rms / max(1.0, phi_int / ph) <= RESOLVED
+
+        for (lay, phv), run in runs.items():
+            if run is not None:
+                energy(run, lay)
+        main = runs.get((layout, c['phi']))
+        e_main = None
+        if main is not None:
+            ph = main[3]
+            if not disp:
+                # oracle (3): closed form, either dB constant
+                es = []
+                for a in (a1, alpha * DB2):
+                    Le = L if alpha == 0 else -math.expm1(-a * L) / a
+                    es.append(max([relerr(orow, irow * np.exp(-a * L / 2 + 1j * g * np.abs(irow) ** 2 * Le))
+                                   for orow, irow in zip(rows_out(main), rows_in(layout)) if np.any(irow)] or [0.0]))
+                e3 = min(es)
+                ob.append(('spm', round(e3, 12)))
+                # alpha == 0: |A| is constant along z, so ANY split-step scheme accumulates exactly gamma*|in|^2*L
+                # (rounding only); with loss a stepping scheme may be first order in phi_max
+                tol3 = (1e-9 if alpha == 0 else ph + 1e-9) + rnd
+                if e3 > tol3:
+                    v.append((f'spm-closed-form:{"loss" if alpha > 0 else "lossless"}:{"kerr" if g > 0 else "gamma0"}',
+                              f'beta2=beta3=0: relative distance to in*exp(-a L/2)*exp(j g |in|^2 L_eff) is {e3:.3e} '
+                              f'> {"1e-9" if alpha == 0 else "phi_max+1e-9"} (+rounding of the operand dtypes) = {tol3:.3e} '
+                              f'(gamma*P*L_eff = {phi_nl:.3f} rad, alpha*L = {alpha * L:.1f} dB)'))
+            else:
+                e_main = err_vs_ref(main, layout)
+                ratios.append(e_main / bound(ph))
+                if e_main > bound(ph):
+                    v.append((f'nlse-bound:{layout}' + (':gamma0' if g == 0 else ''),
+                              f'relative L2 error vs reference NLSE solution {e_main:.3e} > ' + ('floor = ' if g == 0 else 'K*phi_max*max(Phi_NL,0.1)+floor = ') +
+                              f'{bound(ph):.3e} (phi_max={ph}, Phi_NL={phi_nl:.3f} rad, split steps={main[2]})'))
+
+        # oracle (5): 1-pol run == x row of the 2-pol run with empty y
+        if partner:
+            other = runs.get((partner, c['phi']))
+            if main is not None and other is not None:
+                a, b = (rows_out(main)[0], rows_out(other)[0])
+                d = relerr(a, b)
+                if d > 1e-12:
+                    v.append(('pol-equivalence:1pol-vs-empty-y',
+                              f'1-pol output differs from the x row of the 2-pol run with empty y by {d:.3e} relative (> 1e-12)'))
+
+        # oracle (4): ladder (run where phi_max is at its baseline; other phi_max values are single rungs above)
+        if ladder:
+            es = []
+            for phv in LADDER:
+                run = runs.get((layout, phv))
+                if run is None:
+                    es.append(None)
+                    continue
+                e = e_main if phv == c['phi'] else err_vs_ref(run, layout)
+                es.append(e)
+                ratios.append(e / bound(run[3]))
+                if phv != c['phi'] and e > bound(run[3]):
+                    v.append((f'nlse-bound:{layout}',
+                              f'relative L2 error vs reference NLSE solution {e:.3e} > K*phi_max*max(Phi_NL,0.1)+floor = '
+                              f'{bound(run[3]):.3e} (phi_max={run[3]}, Phi_NL={phi_nl:.3f} rad, split steps={run[2]})'))
+            for (p0, e0), (p1, e1) in zip(zip(LADDER, es), list(zip(LADDER, es))[1:]):
+                if e0 is not None and e1 is not None and e0 <= MONO_MAX and resolved(p0) and e1 > 1.05 * e0 + FLOOR + rnd:
+                    v.append((f'nlse-monotone:{layout}',
+                              f'error grows down the ladder: e({p0})={e0:.3e} -> e({p1})={e1:.3e}'))
+            ob.append(('ladder', tuple(None if e is None else float(f'{e:.3e}') for e in es)))
+        return v, ob, ratios
+
+    vA, obA, ratios = evaluate('A')
+    if vA and nkind != 'none':
+        vB, _, _ = evaluate('B')
+        if not vB:
+            vA = []                 # FIBER propagated the total field signal+noise: the statement does not exclude that
+            stats['noise_folded_into_field'] = 1
+    viol += vA
+    obs += obA
     return res(viol=viol, obs=tuple(obs), nontrivial=bool(steps > 1), stats=stats,
                payload={'steps': steps, 'rmax': max(ratios)})
 
@@ -313,16 +569,16 @@ def ref_selfcheck(case):
         N = 256
         t = (np.arange(N) - N / 2) * 1e12 / R.FS
         T0, b2, g, L = 40.0, 25.0, 1.3, 100.0
-        P0 = b2 / (g * T0 ** 2)
-        x = (np.sqrt(P0) / np.cosh(t / T0)).astype(complex)
+        P0_ = b2 / (g * T0 ** 2)
+        x = (np.sqrt(P0_) / np.cosh(t / T0)).astype(complex)
         r, info = R.nlse_ref(x, L, 0.0, b2, 0.0, g)
-        e = relerr(r, x * np.exp(0.5j * g * P0 * L))
+        e = relerr(r, x * np.exp(0.5j * g * P0_ * L))
         assert info['conv'] and e < 1e-7, ('soliton', e, info)
         return res(obs=('soliton', sha(r)), nontrivial='soliton')
-    _, kind, N, P, L, alpha, b2, b3, g, seed = case
+    _, kind, N, P, L, alpha, b2, b3, g, fs, seed = case
     x = R.make_field(kind, N, P, seed)
-    r, info = R.nlse_ref(x, L, alpha * DB1, b2, b3, g)
-    d = R.nlse_ref_dop853(x, L, alpha * DB1, b2, b3, g)
+    r, info = R.nlse_ref(x, L, alpha * DB1, b2, b3, g, fs=fs)
+    d = R.nlse_ref_dop853(x, L, alpha * DB1, b2, b3, g, fs=fs)
     e = relerr(r, d)
     assert info['conv'] and e < 1e-7, (case, e, info)
     return res(obs=(case, sha(r)), nontrivial=case[:-1])
@@ -330,24 +586,30 @@ def ref_selfcheck(case):
 
 # ----------------------------------------------------------------------------- driver
 def run(ctx):
-    k = 3 if ctx.quick else 4
-    pts = lattice(k)
+    tier = 'quick' if ctx.quick else 'thorough'
+    pts = lattice(tier)
     adm = [p for p in pts if admissible(p)]
+    ax = axes(tier)
     ctx.space('lattice-points(all)', len(pts))
-    ctx.space('lattice-points(excluded: gamma*P*L > 10 rad)', len(pts) - len(adm))
-    ctx.rule(f'deviation lattice: every point differing from the baseline {dict(zip(NAMES, pts[0]))} in <= {k} of the '
-             f'10 coordinates {dict(AXES)} subject to gamma*P*L <= 10 rad, enumerated completely, fewest deviations first; '
-             f'grid fs = 160 GHz; per case: FIBER at the case phi_max (oracles 1,2,3 / single-rung 4), the partner layout '
-             f'for 1pol/2pol-y0 (oracle 5), and where phi_max is at baseline the ladder {LADDER} against the reference '
-             f'(oracle 4: bound K={K_BOUND:g}, monotone x1.05 once the error is <= {MONO_MAX})')
+    ctx.space('lattice-points(excluded: gamma*P*L > 10 rad, edge power undefined, integer dtype with a free power)', len(pts) - len(adm))
+    ctx.rule(f'deviation lattice over 10 physics coordinates {dict(ax[:NPHYS])} and 4 form coordinates {dict(ax[NPHYS:])}: '
+             f'every point that differs from the baseline {dict(zip(NAMES, pts[0]))} in p physics and f form coordinates with '
+             f'p <= {TIERS[tier]}[f], subject to gamma*P*L <= 10 rad (integer/bool dtypes: 0/1 samples, 1 W), enumerated '
+             f'completely, fewest deviations first; per case: FIBER at the case phi_max (oracles 1,2,3 / single-rung 4), the partner '
+             f'layout for 1pol/2pol-y0 (oracle 5), and where phi_max is at baseline the ladder {LADDER} against the reference on the '
+             f'grid gv.fs (oracle 4: bound K={K_BOUND:g}, monotone x1.05 once the error is <= {MONO_MAX}); every comparison uses '
+             f'copies of the operands taken before the call')
     ctx.assume('numpy.fft is correct; the reference NLSE solver (Strang splitting + Richardson, self-converged to 1e-7) is '
                'trusted after its self-check against DOP853 in the interaction picture and the analytic soliton; '
                'the constant K=25 of the first-order bound is a calibration (DESIGN 5/C08), the statement only says "a constant"')
-    ctx.assume('VERIF_SEED only selects the content of the seeded random field')
+    ctx.assume('VERIF_SEED only selects the content of the seeded random fields (rand, white)')
+    ctx.assume('with a noise component on the input the statement does not say whether "the input" is the signal component or the '
+               'total field: either reading is accepted; of the noise component of the output only the shape is asserted')
     sc = [('soliton',)] + [('dop',) + t + (ctx.seed,) for t in [
-        ('gauss', 64, 0.1, 20.0, 0.0, -20.0, 0.0, 1.3), ('rand', 256, 0.1, 20.0, 0.2, 25.0, 0.2, 5.0),
-        ('nrz', 128, 0.5, 20.0, 0.5, -20.0, -0.2, 1.0), ('lead0', 256, 0.02, 100.0, 0.0, 25.0, 0.2, 5.0),
-        ('rand', 128, 0.1, 100.0, 0.0, -5.0, -0.2, 1.0)]]
+        ('gauss', 64, 0.1, 20.0, 0.0, -20.0, 0.0, 1.3, R.FS), ('rand', 256, 0.1, 20.0, 0.2, 25.0, 0.2, 5.0, R.FS),
+        ('nrz', 128, 0.5, 20.0, 0.5, -20.0, -0.2, 1.0, R.FS), ('lead0', 256, 0.02, 100.0, 0.0, 25.0, 0.2, 5.0, R.FS),
+        ('rand', 128, 0.1, 100.0, 0.0, -5.0, -0.2, 1.0, R.FS), ('white', 64, 0.1, 20.0, 0.2, -20.0, 0.2, 1.3, R.FS),
+        ('white', 97, 0.1, 20.0, 0.0, 25.0, -0.2, 5.0, 28e9), ('gauss', 65, 0.1, 20.0, 0.5, -20.0, 0.2, 1.3, 640e9)]]
     ctx.pmap('ref-selfcheck', ref_selfcheck, sc, horizon=WALL_HORIZON, recheck=0)
     cases = [p + (ctx.seed,) for p in adm]
     # expensive cases are spread evenly by the kernel's chunking; chunk=1 keeps the tail short
@@ -357,4 +619,5 @@ def run(ctx):
     ctx.extra['split_steps_main_run'] = {'min': int(min(st)), 'max': int(max(st)), 'cases_with_more_than_one_step': int(sum(s > 1 for s in st))}
     if es:
         ctx.extra['max_error_over_bound_any_rung'] = round(max(es), 4)
-    ctx.extra['bounds'] = {'k': k, 'fft_budget': FFT_BUDGET, 'cpu_horizon_s_per_fiber_call': CPU_HORIZON, 'wall_horizon_s_per_case': WALL_HORIZON, 'K': K_BOUND, 'ladder': list(LADDER)}
+    ctx.extra['bounds'] = {'tier_rule': {str(k): v for k, v in TIERS[tier].items()}, 'fft_budget': FFT_BUDGET, 'cpu_horizon_s_per_fiber_call': CPU_HORIZON,
+                           'wall_horizon_s_per_case': WALL_HORIZON, 'K': K_BOUND, 'ladder': list(LADDER)}
